@@ -50,6 +50,17 @@ def proj(tags, keep_obs=False, keep_res=False, keep_snap=False, keep_ev=False):
         return out
     return f
 
+def proj_C17(block):
+    """what C17 constrains: the flag answers and configurations reported after every operation, and - "inside behaviours it
+    reflects the configuration defined by the active-state-switch policy" - the ids the outermost machine's behaviours
+    read (the flag answers taken there, #FL lines, are a function of exactly those ids)"""
+    out = [l for l in block if l.startswith("FLAG") or l.startswith("SNAP")]
+    for l in block:
+        q = parse(l)
+        if q and q["path"] == "r":
+            out.append((q["tag"], q["id"], tuple(q["obs"])))
+    return out
+
 def relevant_by(projection):
     def rel(first_diff, r):
         if not r or "impl" not in r:
